@@ -1,7 +1,7 @@
 use crate::protocol::binary_codec::{
     BinaryRequest, BinaryResponse, MemcacheBinaryCodec, ResponseMessage,
 };
-use bytes::BytesMut;
+use bytes::{Buf, BytesMut};
 use std::cmp;
 use std::io;
 use std::io::{Error, ErrorKind};
@@ -37,12 +37,11 @@ impl MemcacheBinaryConnection {
                             request.header.body_length,
                             self.buffer.len()
                         );
-                        let skip = (request.header.body_length) - (self.buffer.len() as u32);
-                        if skip >= self.buffer.len() as u32 {
-                            self.buffer.clear();
-                        } else {
-                            self.buffer = self.buffer.split_off(skip as usize);
-                        }
+                        // drop what is already buffered of the body, read the rest off the socket
+                        let body_length = request.header.body_length as usize;
+                        let buffered = cmp::min(body_length, self.buffer.len());
+                        self.buffer.advance(buffered);
+                        let skip = (body_length - buffered) as u32;
                         self.skip_bytes(skip).await?;
                         return Ok(Some(BinaryRequest::ItemTooLarge(request)));
                     }
